@@ -8,6 +8,7 @@ package composite
 import (
 	"context"
 
+	fnv1 "github.com/crossplane/crossplane/apis/apiextensions/fn/proto/v1"
 	zz "github.com/crossplane/crossplane/internal/zzverif"
 	"github.com/crossplane/crossplane/internal/zzverif/kube"
 )
@@ -220,4 +221,34 @@ func HarnessC03CarriedAnnotation() {
 	}
 	zz.Cover("quiescent")
 	zz.Assert("third-reconcile-changes-nothing", after == before)
+}
+
+// HarnessC03Bodyless: the pipeline keeps an existing composed resource in its
+// desired state but gives the entry no resource body (it only reports the
+// resource ready). Whatever the composer makes of such an entry, the resource
+// is in the final desired state: it is not deleted and stays referenced.
+//
+//gosym:harness
+//gosym:cover bodyless with-body
+func HarnessC03Bodyless() {
+	s := kube.New()
+	zzSetupComposedN(s, 2, 0, "", false)
+	st := zzStep{desired: []bool{true, true}, ready: []fnv1.Ready{fnv1.Ready_READY_TRUE, fnv1.Ready_READY_TRUE}, bodyless: []bool{false, false}}
+	if zz.Bool("res0.entryWithoutBody") {
+		zz.Cover("bodyless")
+		st.bodyless[0] = true
+	} else {
+		zz.Cover("with-body")
+	}
+	runner := &zzRunner{steps: []zzStep{st}}
+	c := NewFunctionComposer(s, s, runner)
+	before := zzStoredComposed(s)
+	_, _ = c.Compose(context.Background(), zzReadXR(s), CompositionRequest{Revision: zzRevision(1)})
+	for _, w := range s.Log {
+		if w.Verb == kube.VerbDelete && w.Kind == zzCDKind {
+			zz.Assert("still-desired-resource-never-deleted", false)
+		}
+	}
+	zz.Assert("every-desired-resource-still-exists", len(zzStoredComposed(s)) == len(before))
+	zz.Assert("every-desired-resource-still-referenced", len(zzStoredRefNames(s)) == len(before))
 }
